@@ -43,6 +43,24 @@ func dkgScenario(g *gen.G) *sim.Sim {
 	}
 	s := sim.New(g, proto, n, t, dealer, byz, mustSwapped(g))
 	s.KnownF5 = knownActive("F5")
+	// one scenario in three uses the "one victim, one wildcard" template: a Byzantine dealer mistreats the share of exactly
+	// one honest participant and is otherwise honest except at one generated fault point (where anything may happen)
+	if nbyz > 0 && nbyz < n && g.Chance("template", 1, 3) {
+		var hon []int
+		for i := 0; i < n; i++ {
+			isB := false
+			for _, b := range byz {
+				if b == i {
+					isB = true
+				}
+			}
+			if !isB {
+				hon = append(hon, i)
+			}
+		}
+		s.Template, s.Victim, s.Wildcard = true, hon[g.Pick("victim", len(hon))], g.Int("wildcard", 0, 3*n+8)
+		g.Class("template:oneVictimOneWildcard")
+	}
 	s.Run()
 	g.Note("%v n=%d t=%d dealer=%d byzantine=%v", proto, n, t, dealer, byz)
 	return s
